@@ -1,4 +1,5 @@
 """C05 — pisces: every KV backend implements the same abstract map (DESIGN.md §7 C05)."""
+import hashlib
 import json
 import os
 from concurrent.futures import ThreadPoolExecutor
@@ -13,8 +14,13 @@ META = {
             "statement sequences regenerated from sqlite3_kv.go / psql_kv.go return the results of a strictly "
             "key-sorted reference map and stay equal to it under 'sort rows by key'; the same through the KV "
             "wrapper (key mapping, JSON decoding, ErrCancel, ErrUnordered); every clause of the statement is a "
-            "theorem about the reference map. Models are tied to the code by statement tables re-extracted from "
-            "the Go source on every run and by differential histories on the real memory and sqlite backends "
+            "theorem about the reference map. Byte ownership: the memory backend over a heap of buffers, the "
+            "caller overwriting between any two calls every buffer it passed in or was given - contents and results "
+            "depend on the history of calls alone, for the copy points extracted from mem_entry.go. Several handles "
+            "over the tables of one database (pisces.Tables) with the table life cycle refine per-table reference "
+            "maps; calls leave other tables alone; a table used through several handles is one store. Models are "
+            "tied to the code by statement tables, the table scheme and the copy-point skeleton re-extracted from the "
+            "Go source on every run and by differential histories on the real memory and sqlite backends "
             "evaluated inside Coq.",
     "note": "Trusted: Coq kernel + vm_compute; translator gen/kv.go (SQL text -> statement shapes, bound arguments, "
             "event order); harness c05 and the comparison in checks/c05.py; SQLite statement semantics, BINARY "
@@ -32,7 +38,39 @@ STATEMENT_FILES = ["theories/Props/C05.v", "theories/Kv/KvGen.v"]
 SEMANTIC_TIE = code_tie.functions("C05")   # Go bodies proved equal to the model (Props/C05Code.v)
 
 ERR = {"not_found": "ENotFound", "exists": "EExists", "key_too_long": "EKeyTooLong", "decode": "EDecode",
-       "user": "EUser", "unordered": "EUnordered", "cancel": "ECancel", "other": "EOther", "panic": "EPanic"}
+       "user": "EUser", "unordered": "EUnordered", "cancel": "ECancel", "other": "EOther", "panic": "EPanic",
+       "upanic": "EPanic"}   # upanic: the user callback's own panic value came back out of the call
+BAD = ("other", "panic", "hang", "partial-modified", "caller-memory-written")
+LIFE = ("create", "createmissing", "destroy", "tcreate", "tcreatemissing", "tdestroy")
+
+# long byte strings of a case: "hh*n" pieces joined by '+' in arguments, "@len:sha256" in observations
+DIGESTS = {}
+
+
+def bx(s):
+    if not s:
+        return b""
+    if s[0] == "@":
+        return DIGESTS.get(s, b"?")
+    if "*" not in s and "+" not in s:
+        return bytes.fromhex(s)
+    out = bytearray()
+    for piece in s.split("+"):
+        if "*" in piece:
+            hh, n = piece.split("*")
+            out += bytes.fromhex(hh) * int(n)
+        else:
+            out += bytes.fromhex(piece)
+    return bytes(out)
+
+
+def enc(b):
+    """The way the harness prints a byte string."""
+    if len(b) > 20000:
+        d = "@%d:%s" % (len(b), hashlib.sha256(b).hexdigest())
+        DIGESTS[d] = b
+        return d
+    return b.hex()
 STORES = [("mo", "StMem", "true"), ("mu", "StMem", "false"), ("so", "StSql", "true"), ("su", "StSql", "false")]
 WALKS = ("walk", "walkclass", "walkpartial", "walkpartialclass")
 
@@ -67,7 +105,7 @@ class Pool:
         return "(" + " ++ ".join(parts) + ")%list"
 
     def b(self, hexs):
-        bs = bytes.fromhex(hexs or "")
+        bs = bx(hexs or "")
         if len(bs) <= 6:
             return self.lit(bs)
         if bs not in self.names:
@@ -106,7 +144,8 @@ def op_to_coq(o, P):
     if t == "set":
         return "USet %s %s" % (k, v)
     if t == "mutate":
-        f = {"ok": "(mf_ok %s)" % v, "error": "mf_err", "cancel": "mf_cancel", "incr": "mf_incr"}[o["m"]]
+        f = {"ok": "(mf_ok %s)" % v, "error": "mf_err", "cancel": "mf_cancel", "incr": "mf_incr",
+             "seterr": "mf_err", "setcancel": "mf_cancel", "bad": "mf_bad", "panic": "mf_panic"}[o["m"]]
         return "UMutate %s %s" % (k, f)
     if t == "count":
         return "UCount"
@@ -114,7 +153,7 @@ def op_to_coq(o, P):
         return "UClear"
     d = "WAll"
     if o.get("stop") is not None:
-        d = "(WStopAt %s %s)" % (P.b(o["stop"]), {"cancel": "ECancel", "user": "EUser"}[o["stoperr"]])
+        d = "(WStopAt %s %s)" % (P.b(o["stop"]), {"cancel": "ECancel", "user": "EUser", "panic": "EPanic"}[o["stoperr"]])
     if t == "walk":
         return "UWalk %s" % d
     if t == "walkclass":
@@ -128,7 +167,7 @@ def op_to_coq(o, P):
 
 def res_to_coq(o, r, P):
     e = r["e"]
-    if o["op"] in WALKS and e not in ("unordered", "other", "panic"):
+    if o["op"] in WALKS and e not in ("unordered",) + BAD:
         items = "[" + "; ".join("(%s, %s)" % (P.b(c), P.b(v)) for c, v in r.get("w") or []) + "]"
         return "RWalk %s %s" % (items, "None" if e == "ok" else "(Some %s)" % ERR[e])
     if e != "ok":
@@ -230,21 +269,24 @@ def _incr(cur):
     return b"1" + bytes(ds)
 
 
-def reference(ops, ordered, hk):
-    """Expected projected results of a history on one store."""
-    m = {}
-    out = []
-    for o in ops:
+class Ref:
+    """The reference map of the statement: key -> (class, value)."""
+
+    def __init__(self):
+        self.m = {}
+
+    def step(self, o, ordered, hk):
+        """Expected projected result of one call; updates the map."""
+        m = self.m
         t = o["op"]
-        k = bytes.fromhex(o.get("k", ""))
-        c = bytes.fromhex(o.get("c", ""))
-        v = bytes.fromhex(o.get("v", ""))
+        k = bx(o.get("k", ""))
+        c = bx(o.get("c", ""))
+        v = bx(o.get("v", ""))
         keyed = t not in ("count", "clear") + WALKS
         if keyed:
             if ordered:
                 if len(k) > 255:
-                    out.append({"e": "key_too_long"})
-                    continue
+                    return {"e": "key_too_long"}
                 mk = k
             else:
                 mk = bytes.fromhex(hk[o.get("k", "")])
@@ -266,14 +308,14 @@ def reference(ops, ordered, hk):
             else:
                 del m[mk]
         elif t == "getbytes":
-            r = {"e": "not_found"} if cur is None else {"e": "ok", "b": cur[1].hex()}
+            r = {"e": "not_found"} if cur is None else {"e": "ok", "b": enc(cur[1])}
         elif t == "get":
             if cur is None:
                 r = {"e": "not_found"}
             elif not json_ok(cur[1]):
                 r = {"e": "decode"}
             else:
-                r = {"e": "ok", "b": cur[1].hex()}
+                r = {"e": "ok", "b": enc(cur[1])}
         elif t == "has":
             r = {"e": "ok", "has": cur is not None}
         elif t == "emplace":
@@ -289,14 +331,19 @@ def reference(ops, ordered, hk):
             else:
                 m[mk] = (cur[0], v)
         elif t == "mutate":
+            # a Mutate that does not succeed changes nothing, whatever its function did to its argument
             if cur is None:
                 r = {"e": "not_found"}
             elif not json_ok(cur[1]):
                 r = {"e": "decode"}
             elif o["m"] == "ok":
                 m[mk] = (cur[0], v)
-            elif o["m"] == "error":
+            elif o["m"] in ("error", "seterr"):
                 r = {"e": "user"}
+            elif o["m"] == "bad":
+                r = {"e": "decode"}
+            elif o["m"] == "panic":
+                r = {"e": "upanic"}
             elif o["m"] == "incr":
                 nv = _incr(cur[1])
                 if nv is None:
@@ -306,11 +353,10 @@ def reference(ops, ordered, hk):
         elif t == "count":
             r = {"e": "ok", "n": len(m)}
         elif t == "clear":
-            m = {}
+            m.clear()
         elif t in WALKS:
             if t in ("walkpartial", "walkpartialclass") and not ordered:
-                out.append({"e": "unordered"})
-                continue
+                return {"e": "unordered"}
             items = sorted(m.items())
             if t in ("walkclass", "walkpartialclass"):
                 items = [it for it in items if it[1][0] == c]
@@ -325,14 +371,79 @@ def reference(ops, ordered, hk):
                 if not json_ok(val):
                     e = "decode"
                     break
-                if o.get("stop") is not None and val == bytes.fromhex(o["stop"]):
-                    e = "ok" if o["stoperr"] == "cancel" else "user"
+                if o.get("stop") is not None and val == bx(o["stop"]):
+                    e = {"cancel": "ok", "user": "user", "panic": "upanic"}[o["stoperr"]]
                     break
-                w.append([cl.hex(), val.hex()])
+                w.append([enc(cl), enc(val)])
             r = {"e": e}
             if w:
                 r["w"] = w
-        out.append(r)
+        return r
+
+
+def reference(ops, ordered, hk):
+    """Expected projected results of a history on one store."""
+    ref = Ref()
+    return [ref.step(o, ordered, hk) for o in ops]
+
+
+def reference_multi(c, backend):
+    """Expected results of a multi-handle history. Memory: one private map per
+    handle, the life cycle calls do nothing. SQL: one map per table name; a
+    table exists between a successful create and the next successful destroy,
+    and every call on a table that does not exist reports an error (after the
+    wrapper's own key / ordered checks)."""
+    hs = c["handles"]
+    mem = backend == "m"
+    slots = {}
+    slot_of = [(i if mem else h["t"]) for i, h in enumerate(hs)]
+    if mem:
+        slots = {i: Ref() for i in range(len(hs))}
+
+    def one(slot, kind):
+        if mem:
+            return "ok"
+        ex = slots.get(slot) is not None
+        if kind == "create":
+            if ex:
+                return "other"
+            slots[slot] = Ref()
+        elif kind == "createmissing":
+            if not ex:
+                slots[slot] = Ref()
+        else:
+            if not ex:
+                return "other"
+            slots[slot] = None
+        return "ok"
+
+    out = []
+    for o in c["ops"]:
+        t = o["op"]
+        if t in ("tcreate", "tcreatemissing", "tdestroy"):
+            e = "ok" if hs else "other"
+            for sl in slot_of:
+                e = one(sl, t[1:])
+                if e != "ok":
+                    break
+            out.append({"e": e})
+            continue
+        hh = o.get("h", 0)
+        if t in LIFE:
+            out.append({"e": one(slot_of[hh], t)})
+            continue
+        ref = slots.get(slot_of[hh])
+        ordered = hs[hh]["ord"]
+        if ref is None:
+            keyed = t not in ("count", "clear") + WALKS
+            if keyed and ordered and len(bx(o.get("k", ""))) > 255:
+                out.append({"e": "key_too_long"})
+            elif t in ("walkpartial", "walkpartialclass") and not ordered:
+                out.append({"e": "unordered"})
+            else:
+                out.append({"e": "other"})
+            continue
+        out.append(ref.step(o, ordered, c["hk"]))
     return out
 
 
@@ -357,9 +468,39 @@ def history_key(ops):
     return ">".join(names)
 
 
+def impl_oracle_multi(c):
+    """Several handles of one table set: every backend against its reference
+    (per-table maps, life cycle as documented), and nothing crashes or hangs."""
+    out = []
+    for b in ("m", "s"):
+        exp = reference_multi(c, b)
+        got = [norm(r) for r in c["obs"][b]]
+        j = next((i for i in range(len(exp)) if norm(exp[i]) != got[i]), None)
+        if j is not None:
+            o = c["ops"][j]
+            out.append(("impl:%s:%s!=reference:%s:%s/%s" % (c["stream"], {"m": "mem", "s": "sqlite"}[b], o["op"],
+                                                           got[j]["e"], exp[j]["e"]),
+                        "call %d (%s on handle %d) of a history over %d handles returned %s on %s; the per-table "
+                        "reference maps say %s" % (j, o["op"], o.get("h", 0), len(c["handles"]), json.dumps(got[j]),
+                                                   {"m": "memory", "s": "sqlite"}[b], json.dumps(exp[j])),
+                        {"handles": c["handles"], "history": c["ops"][:j + 1], "backend": b,
+                         "observed": c["obs"][b][:j + 1], "expected": exp[:j + 1]}))
+        for i, r in enumerate(c["obs"][b]):
+            if r["e"] in BAD[1:]:
+                o = c["ops"][i]
+                out.append(("impl:%s:%s:%s" % (r["e"], o["op"], b),
+                            "%s on handle %d (%s) did not complete normally: %s" % (o["op"], o.get("h", 0), b, r.get("msg", r["e"])),
+                            {"handles": c["handles"], "history": c["ops"][:i + 1], "backend": b,
+                             "observed": c["obs"][b][:i + 1]}))
+                break
+    return out
+
+
 def impl_oracle(c):
     """Implementation-only reading of the property on one history: list of
     (key, what, replay) for each way the real backends depart from it."""
+    if c.get("multi"):
+        return impl_oracle_multi(c)
     out = []
     obs = c["obs"]
     if c["stream"] == "overflow":
@@ -402,7 +543,7 @@ def impl_oracle(c):
                 break
     for s in ("mo", "mu", "so", "su"):
         for i, r in enumerate(obs[s]):
-            if r["e"] in ("other", "panic"):
+            if r["e"] in BAD:
                 o = c["ops"][i]
                 out.append(("impl:%s:%s%s:%s" % (r["e"], o["op"], "(nil)" if o.get("nil") else "", s[0]),
                             "%s on store %s returned an error the statement does not allow: %s"
@@ -413,8 +554,19 @@ def impl_oracle(c):
     return out
 
 
+def lop_to_coq(o, P):
+    t = o["op"]
+    kinds = {"create": "KCreate", "createmissing": "KMissing", "destroy": "KDestroy"}
+    if t in ("tcreate", "tcreatemissing", "tdestroy"):
+        return "LAll %s" % kinds[t[1:]]
+    if t in kinds:
+        return "LLife %d %s" % (o.get("h", 0), kinds[t])
+    return "LOp %d (%s)" % (o.get("h", 0), op_to_coq(o, P))
+
+
 def run(ck):
     nhist = 400 if not ck.thorough else 6000
+    nmulti = 40 if not ck.thorough else 1500
     maxlen = 60
     ck.gen()
     built = ck.coq_make(MODEL + PROOFS, clean=ck.thorough)
@@ -431,85 +583,117 @@ def run(ck):
     binp = ck.build_harness("c05")
     cases = []
     if binp:
-        rc, out, err = vlib.sh2([binp, "-seed", str(ck.seed), "-n", str(nhist), "-maxlen", str(maxlen)],
-                                timeout=3000)
+        rc, out, err = vlib.sh2([binp, "-seed", str(ck.seed), "-n", str(nhist), "-maxlen", str(maxlen),
+                                 "-multi", str(nmulti)], timeout=3000)
         if rc != 0:
             ck.broken.append({"what": "harness run failed", "detail": err[-1500:]})
         for line in out.splitlines():
             if line.startswith("{"):
                 cases.append(json.loads(line))
+                if cases[-1].get("multi"):
+                    cases[-1].setdefault("handles", [])
 
     # implementation-only oracle = the search for a failing input
     failing = set()
     opkinds = {}
     for c in cases:
-        for s, _, _ in STORES:
+        for s in sorted(c["obs"]):
             trivial = not any(r["e"] == "ok" for r in c["obs"][s])
-            ck.count(c["stream"] + "/" + s, key=(s, json.dumps(c["ops"], sort_keys=True)), trivial=trivial)
+            ck.count(c["stream"] + "/" + s, key=(s, json.dumps([c.get("handles"), c["ops"]], sort_keys=True)),
+                     trivial=trivial)
         for o in c["ops"]:
             opkinds[o["op"]] = opkinds.get(o["op"], 0) + 1
+            if o["op"] == "mutate":
+                opkinds["mutate:" + o["m"]] = opkinds.get("mutate:" + o["m"], 0) + 1
+            if o.get("stoperr"):
+                opkinds["walk-stop:" + o["stoperr"]] = opkinds.get("walk-stop:" + o["stoperr"], 0) + 1
         for key, what, replay in impl_oracle(c):
             failing.add(c["i"])
             ck.violation(key, what, replay)
-    for c in cases[:1] + cases[20:22]:
+    single = [c for c in cases if not c.get("multi")]
+    for c in single[:1] + single[20:22]:
         ck.sample({"stream": c["stream"], "ops": c["ops"][:6], "obs_mem_ordered": c["obs"]["mo"][:6],
                    "obs_sqlite_ordered": c["obs"]["so"][:6]})
+    for c in [c for c in cases if c.get("multi")][:1]:
+        ck.sample({"stream": c["stream"], "handles": c["handles"], "ops": c["ops"][:8], "obs_sqlite": c["obs"]["s"][:8]})
     ck.coverage["op_kinds"] = opkinds
     ck.coverage["histories"] = len(cases)
-    ck.coverage["calls"] = 4 * sum(len(c["ops"]) for c in cases)
+    ck.coverage["calls"] = sum(len(c["ops"]) * len(c["obs"]) for c in cases)
 
     # correspondence: both models evaluated inside Coq on the same histories
+    # (the huge stream, values of 1 MiB and more, is compared with the reference map only)
     model_ok = all(built.get(x) for x in MODEL)
-    if cases and model_ok:
+    ccases = [c for c in cases if c["stream"] != "huge"]
+    if ccases and model_ok:
         shard = 60
         jobs = []
-        for s in range(0, len(cases), shard):
-            part = cases[s:s + shard]
+        for s in range(0, len(ccases), shard):
+            part = ccases[s:s + shard]
             P = Pool()
             lines = []
             for c in part:
-                ops = "[" + "; ".join(op_to_coq(o, P) for o in c["ops"]) + "]"
+                if c.get("multi"):
+                    ops = "[" + "; ".join(lop_to_coq(o, P) for o in c["ops"]) + "]"
+                    typ = "lop"
+                else:
+                    ops = "[" + "; ".join(op_to_coq(o, P) for o in c["ops"]) + "]"
+                    typ = "uop"
                 hk = "[" + "; ".join("(%s, %s)" % (P.b(k), P.b(h)) for k, h in sorted(c["hk"].items())) + "]"
-                lines.append("Definition ops_%d : list uop := %s.\nDefinition hk_%d : list (key * key) := %s."
-                             % (c["i"], ops, c["i"], hk))
+                lines.append("Definition ops_%d : list %s := %s.\nDefinition hk_%d : list (key * key) := %s."
+                             % (c["i"], typ, ops, c["i"], hk))
             cs = []
+            owners = []
             for c in part:
+                if c.get("multi"):
+                    hs = c["handles"]
+                    for b, st in (("m", "StMem"), ("s", "StSql")):
+                        # memory: one private store per handle; SQL: one per table name
+                        slot = [(i if b == "m" else h["t"]) for i, h in enumerate(hs)]
+                        hl = "[" + "; ".join("(%d%%nat, %s)" % (sl, "true" if h["ord"] else "false")
+                                             for sl, h in zip(slot, hs)) + "]"
+                        exp = "[" + "; ".join(res_to_coq(o, r, P) for o, r in zip(c["ops"], c["obs"][b])) + "]"
+                        cs.append("CMulti %s %s %d hk_%d ops_%d %s" % (st, hl, max(slot + [-1]) + 1, c["i"], c["i"], exp))
+                        owners.append((c["i"], b))
+                    continue
                 for s_, st, ordd in STORES:
                     exp = "[" + "; ".join(res_to_coq(o, r, P) for o, r in zip(c["ops"], c["obs"][s_])) + "]"
                     cs.append("%s %s %s hk_%d ops_%d %s" % ("CModel" if c["stream"] == "overflow" else "CHist",
                                                            st, ordd, c["i"], c["i"], exp))
+                    owners.append((c["i"], s_))
             txt = ("From Coq Require Import List NArith Bool.\n"
-                   "From Verif Require Import Kv.KeyOrd Kv.Spec Kv.KvCorr.\n"
+                   "From Verif Require Import Kv.KeyOrd Kv.Spec Kv.Tables Kv.KvCorr.\n"
                    "Import ListNotations.\nLocal Open Scope N_scope.\n"
                    + "\n".join(P.defs) + "\n" + "\n".join(lines) + "\n"
                    "Definition cases : list ccase := [\n  " + ";\n  ".join(cs) + "\n].\n"
                    "Definition M := Eval vm_compute in mismatches cases.\nPrint M.\n")
-            jobs.append((s, txt))
+            jobs.append((s, txt, owners))
 
         def ev(job):
-            s, txt = job
+            s, txt, owners = job
             rc, out = ck.coq_eval("cases_%d" % (s // shard), txt)
-            return s, (vlib.parse_coq_list_of_nat(out, "M") if rc == 0 else None), out
+            return owners, (vlib.parse_coq_list_of_nat(out, "M") if rc == 0 else None), out
 
+        byi = {c["i"]: c for c in cases}
         mism = []
+        ncorr = 0
         with ThreadPoolExecutor(max_workers=8) as ex:
-            for s, got, out in ex.map(ev, jobs):
+            for owners, got, out in ex.map(ev, jobs):
+                ncorr += len(owners)
                 if got is None:
                     ck.broken.append({"what": "correspondence evaluation failed", "detail": out[-1500:]})
                     continue
-                mism += [(s + i // 4, i % 4) for i in got]
-        ck.coverage["correspondence_cases"] = 4 * len(cases)
+                mism += [owners[i] for i in got]
+        ck.coverage["correspondence_cases"] = ncorr
         ck.coverage["correspondence_mismatches"] = len(mism)
         by_stream = {}
-        for hi, si in mism:
-            k = cases[hi]["stream"] + "/" + STORES[si][0]
+        for ci, sname in mism:
+            k = byi[ci]["stream"] + "/" + sname
             by_stream[k] = by_stream.get(k, 0) + 1
         ck.coverage["correspondence_mismatches_by_stream"] = by_stream
-        for hi, si in mism[:60]:
-            c = cases[hi]
-            sname = STORES[si][0]
+        for ci, sname in mism[:60]:
+            c = byi[ci]
             ck.broken.append({"what": "correspondence: model and implementation disagree",
-                              "stream": c["stream"], "history_index": hi, "store": sname})
+                              "stream": c["stream"], "history_index": ci, "store": sname})
             # with the proofs intact the model is the proved one: a history on which
             # the implementation departs from it is a failing input even if the
             # Python reference did not notice; with a broken obligation the model
@@ -520,7 +704,8 @@ def run(ck):
                 ck.violation("corr:%s:%s" % (sname, c["stream"]),
                              "the %s backend does not behave as the proved model / reference map on this history"
                              % {"m": "memory", "s": "sqlite"}[sname[0]],
-                             {"history": c["ops"], "store": sname, "observed": c["obs"][sname],
+                             {"handles": c.get("handles"), "history": c["ops"], "store": sname,
+                              "observed": c["obs"][sname],
                               "model": "Kv/KvCorr.v check_case evaluated by vm_compute disagrees"})
     elif cases and not model_ok:
         ck.broken.append({"what": "model does not compile; correspondence not evaluated"})
@@ -530,15 +715,22 @@ def run(ck):
         checker_cmd="bin/check C05 (gen -> make -C coq theories/Props/C05.vo -> Print Assumptions audit -> "
                     "harness c05 on mem+sqlite vs vm_compute of Kv/KvCorr.v)",
         trusted=["Coq 8.16.1 kernel + vm_compute",
-                 "translator gen/kv.go (SQL text -> statement shape, Sprintf and bound arguments, event order, KVOps binding)",
+                 "translator gen/kv.go, gen/kvown.go (SQL text -> statement shape, Sprintf and bound arguments, event "
+                 "order, KVOps binding, table scheme, copy points of mem_entry.go)",
                  "harness/cmd/c05 + checks/c05.py projection and comparison",
-                 "modelled not verified: SQLite statement semantics, BINARY collation, NOT NULL / UNIQUE; Go map and sort",
+                 "modelled not verified: SQLite statement semantics, BINARY collation, NOT NULL / UNIQUE; Go map and sort; "
+                 "bytes.Buffer (Write copies, NewBuffer adopts) and the sqlite driver copying bound and scanned []byte",
                  "psql_kv.go only through its generated statement table (PostgreSQL cannot run here)"],
-        rule="seeded histories (splitmix64) of 1..60 calls over the 19 KV methods on a key pool with shared prefixes, "
+        rule="fixed corpora first (known disagreements, window edges, classes/values/key limits, callback shapes, all "
+             "ordered pairs of 13 writers x 20 readers, value sizes around 64 B / 256 B / 4 KiB / 64 KiB / 1 MiB / 3 MiB, "
+             "multi-handle life cycle), then generated multi-handle histories (2-4 handles over 1-4 tables of one "
+             "file or of memory table sets, life cycle calls sprinkled in) and "
+             "seeded histories (splitmix64) of 1..60 calls over the 19 KV methods on a key pool with shared prefixes, "
              "random keys of 0..300 bytes, 4 classes, JSON scalars/objects/arrays, raw/empty/nil byte values, "
              "window edges {0,1,..,2^62,2^63-1}; every 8th history from a malformed stream; fixed corpus first; "
              "each history runs on mem-ordered, mem-unordered, sqlite-ordered, sqlite-unordered; a case (history x "
              "store) is non-trivial if some call returned ok; distinct = distinct (store, history)",
         assumptions=["keys are valid UTF-8 without NUL (bytewise order = collation order)",
-                     "offsets and limits < 2^63", "walk callbacks (Iter.Do) succeed",
+                     "offsets and limits < 2^63",
+                     "callbacks do not call back into the store they are called from",
                      "values passed to Add/Set/Emplace/Replace/Mutate are JSON that json.Marshal leaves unchanged"])
